@@ -5,7 +5,7 @@ import (
 	"image/color"
 	"image/draw"
 
-	prism "github.com/mandykoh/prism"
+	"github.com/mandykoh/prism/zzverif/img"
 )
 
 var verifC10Geoms = 3
@@ -105,8 +105,8 @@ func VerifHarness_C10_Transform() {
 		srcKind, dstKind = verifChoice(verifC10Srcs), verifChoice(verifC10Dsts)
 		opaque = verifChoice(2) == 1
 	}
-	g := prism.VerifGeoms[gi]
-	src, _ := prism.VerifSource(srcKind, g)
+	g := img.VerifGeoms[gi]
+	src, _ := img.VerifSource(srcKind, g)
 	if opaque {
 		src = verifOpaqueSrc{src}
 	}
@@ -130,7 +130,7 @@ func VerifHarness_C10_Transform() {
 
 // VerifHarness_C10_InPlace: src == dst.
 func VerifHarness_C10_InPlace() {
-	g := prism.VerifGeoms[verifChoice(verifC10Geoms)]
+	g := img.VerifGeoms[verifChoice(verifC10Geoms)]
 	kind := verifChoice(4) // RGBA64, RGBA, NRGBA, NRGBA64
 	r := g.R
 	img, _, pix := verifDst(kind, r)
